@@ -2,7 +2,7 @@
 
 Every *block* (a fixed-size structure of the standards: a header, a descriptor, a mode page body, …)
 is encoded by the Lean oracle `Std.Block.enc` through the driver (`blkenc`); GET LBA STATUS,
-REPORT LUNS, PR IN READ KEYS, REPORT PRIORITY, REPORT TARGET PORT GROUPS and MODE SENSE(6/10) responses
+REPORT LUNS, PR IN READ KEYS, REPORT PRIORITY, REPORT TARGET PORT GROUPS, READ ELEMENT STATUS and MODE SENSE(6/10) responses
 come whole from Lean (`stdenc`, the encoders the C04
 theorems are stated about).  For the other structured formats this module concatenates Lean-encoded
 blocks and fills in the standards' length fields (n-3, n-7, byte counts) — that composition is part
@@ -383,12 +383,16 @@ class Oracle:
     def readelementstatus(self):
         pages = b""
         pe = []
+        ptxt = []
         for _ in range(self.rng.choice([0, 1, 1, 2, 3])):
             ety = self.rng.choice([1, 2, 3, 4])
             pv, av = self.rng.getrandbits(1), self.rng.getrandbits(1)
-            edl = 16 + 36 * pv + 36 * av
+            # reserved / identifier bytes after the tags; the library's own builder always writes 4 (the canonical form C06 is about)
+            extra = 4 if getattr(self, "canonical_only", False) else self.rng.choice([4, 4, 0, 12])
+            edl = 12 + 36 * pv + 36 * av + extra
             descs = b""
             de = []
+            dtxt = []
             for _ in range(self.rng.choice([0, 1, 2, 4])):
                 flags = {"oir", "cmc", "inenab", "exenab", "access", "except", "impexp", "full"}
                 v = self.vals("element_descriptor")
@@ -396,24 +400,31 @@ class Oracle:
                     v[f] = 0
                 e = {k: x for k, x in v.items() if k not in flags or k in self.ELEMENT_BITS[ety]}
                 d = self.enc("element_descriptor", v)
+                pt = at = b""
                 if pv:
-                    t = self.rbytes(36, True)
-                    e["primary_volume_tag"] = t
-                    d += t
+                    pt = self.rbytes(36, True)
+                    e["primary_volume_tag"] = pt
+                    d += pt
                 if av:
-                    t = self.rbytes(36, True)
-                    e["alternate_volume_tag"] = t
-                    d += t
-                d += bytes(4)
+                    at = self.rbytes(36, True)
+                    e["alternate_volume_tag"] = at
+                    d += at
+                d += bytes(extra)
                 descs += d
                 de.append(e)
+                dtxt.append("{fields={%s},ptag=%s,atag=%s,rest=%s}" % (",".join("%s=i%d" % kv for kv in v.items()), hx(pt), hx(at), hx(bytes(extra))))
             hv = {"element_type": ety, "pvoltag": pv, "avoltag": av, "element_descriptor_length": edl, "byte_count": len(descs)}
             pages += self.enc("element_status_page", hv) + descs
             pe.append({"element_type": ety, "pvoltag": pv, "avoltag": av, "element_descriptors": de})
+            ptxt.append("{header={%s},descs=[%s]}" % (",".join("%s=i%d" % kv for kv in hv.items()), ",".join(dtxt)))
         hv = self.vals("element_status_header", {"byte_count": len(pages)})
         e = self.report("element_status_header", hv, drop=("byte_count",))
         e["element_status_pages"] = pe
-        return self.enc("element_status_header", hv) + pages, e
+        # the whole response as the Lean oracle states it (Std.encReadElementStatus, the encoder of C04.readElementStatus_decodes)
+        whole = self.stdenc("readelementstatus", "{header={%s},pages=[%s]}" % (",".join("%s=i%d" % kv for kv in hv.items()), ",".join(ptxt)))
+        if whole != self.enc("element_status_header", hv) + pages:
+            raise Infra("oracle inconsistency: Std.encReadElementStatus differs from the block-wise composition")
+        return whole, e
 
     # ------------------------------------------------------------------ REPORT PRIORITY
     def reportpriority(self):
